@@ -614,4 +614,67 @@ theorem cryptoWriterOps_spec (A : Aead) (n0 : NonceSeq) (ws : List Bytes) :
   simp only [cryptoWriterOps, opsBytes, encStream, NonceSeq.bytes, List.append_assoc]
   rw [CW.run_spec A ws]
 
+theorem CW.chunksProg_spec : ∀ (prog : List CWOp) (buf : Bytes),
+    (CW.chunksProg buf prog).flatten = buf ++ CW.written prog ∧ ∀ c ∈ CW.chunksProg buf prog, c ≠ [] ∧ c.length ≤ cryptoBuf
+  | [], buf => by
+    simp only [CW.chunksProg, CW.written, List.append_nil]
+    exact chunksOf_spec _ _ (by omega)
+  | .write b :: ops, buf => by
+    simp only [CW.chunksProg, CW.written]
+    split
+    · obtain ⟨h1, h2⟩ := chunksOf_spec ((buf ++ b).length + 1) (buf ++ b) (by omega)
+      obtain ⟨g1, g2⟩ := CW.chunksProg_spec ops []
+      refine ⟨by rw [List.flatten_append, h1, g1]; simp, ?_⟩
+      intro c hc
+      simp only [List.mem_append] at hc
+      rcases hc with hc | hc
+      · exact h2 c hc
+      · exact g2 c hc
+    · obtain ⟨g1, g2⟩ := CW.chunksProg_spec ops (buf ++ b)
+      exact ⟨by simp [g1], g2⟩
+  | .flush :: ops, buf => by
+    simp only [CW.chunksProg, CW.written]
+    obtain ⟨h1, h2⟩ := chunksOf_spec (buf.length + 1) buf (by omega)
+    obtain ⟨g1, g2⟩ := CW.chunksProg_spec ops []
+    refine ⟨by rw [List.flatten_append, h1, g1]; simp, ?_⟩
+    intro c hc
+    simp only [List.mem_append] at hc
+    rcases hc with hc | hc
+    · exact h2 c hc
+    · exact g2 c hc
+
+theorem CW.runProg_spec (A : Aead) : ∀ (prog : List CWOp) (s : CW),
+    opsBytes (CW.runProg A s prog) = framesBytes A s.nonce (CW.chunksProg s.buf prog)
+  | [], s => by
+    simp only [CW.runProg, CW.flush, CW.chunksProg]
+    exact (frameOps_spec A _ _).2
+  | .write b :: ops, s => by
+    simp only [CW.runProg, CW.write, CW.chunksProg]
+    split
+    · simp only [CW.flush]
+      rw [opsBytes_append, (frameOps_spec A _ _).2, CW.runProg_spec A ops, framesBytes_append]
+      simp only
+      rw [(frameOps_spec A _ _).1]
+    · simp only [opsBytes_append, opsBytes, List.nil_append]
+      rw [CW.runProg_spec A ops]
+  | .flush :: ops, s => by
+    simp only [CW.runProg, CW.flush, CW.chunksProg]
+    rw [opsBytes_append, (frameOps_spec A _ _).2, CW.runProg_spec A ops, framesBytes_append]
+    simp only
+    rw [(frameOps_spec A _ _).1]
+
+theorem cryptoWriterProgOps_spec (A : Aead) (n0 : NonceSeq) (prog : List CWOp) :
+    opsBytes (cryptoWriterProgOps A n0 prog) = encStream A n0 (CW.chunksProg [] prog) := by
+  simp only [cryptoWriterProgOps, opsBytes, encStream, NonceSeq.bytes, List.append_assoc]
+  rw [CW.runProg_spec A prog]
+
+/-- without explicit flushes the program is the write sequence of `CW.chunks` -/
+theorem CW.chunksProg_writes : ∀ (ws : List Bytes) (buf : Bytes), CW.chunksProg buf (ws.map .write) = CW.chunks buf ws
+  | [], buf => by simp [CW.chunksProg, CW.chunks]
+  | b :: bs, buf => by
+    simp only [List.map_cons, CW.chunksProg, CW.chunks]
+    split
+    · rw [CW.chunksProg_writes bs []]
+    · rw [CW.chunksProg_writes bs (buf ++ b)]
+
 end Sfv
